@@ -81,7 +81,8 @@ SumTags(to) ==
     ELSE IF to.keymap = "h" THEN {One("KM", to)}
     ELSE IF to.term # <<>> \/ to.key # <<>> THEN {One(k, to) : k \in Range(to.term) \cup Range(to.key)}
     ELSE {One(Fallback(to), to)}
-AllowedTags(to) == DocTags(to) \cup SumTags(to)
+\* (the label "" : whether it counts as "the empty label" is not said; no tags is accepted as well)
+AllowedTags(to) == DocTags(to) \cup SumTags(to) \cup (IF to.label = "" THEN {<<>>} ELSE {})
 \* a tag function that raises ValueError: falling through (tests) or propagating (docstring step 2) are both readings
 MayPropagate(to) == ~LabelEmpty(to) /\ to.fn = "m"
 TagsOk(to, raised, tags) == \/ raised = "" /\ tags \in AllowedTags(to)
